@@ -101,6 +101,49 @@ def add_fact(facts: frozenset, f, pol: bool) -> frozenset:
     return facts | {(f, pol)}
 
 
+_OPS = {"Lt": lambda x, k: x < k, "LtE": lambda x, k: x <= k, "Gt": lambda x, k: x > k, "GtE": lambda x, k: x >= k,
+        "==": lambda x, k: x == k, "!=": lambda x, k: x != k}
+_FLIP = {"Lt": "Gt", "LtE": "GtE", "Gt": "Lt", "GtE": "LtE", "==": "==", "!=": "!="}
+
+
+def int_atom(a):
+    """(variable value-set, op, k) for an order / equality comparison of a value with an integer constant, else None"""
+    if a[0] != "cmp" or a[1] not in _OPS or len(a) < 4:
+        return None
+    l, r = a[2], a[3]
+
+    def const_int(v):
+        if len(v) == 1:
+            t = next(iter(v))
+            if isinstance(t, tuple) and t and t[0] == "const" and isinstance(t[1], int) and not isinstance(t[1], bool):
+                return t[1]
+        return None
+    kr, kl = const_int(r), const_int(l)
+    if kr is not None and kl is None and l:
+        return (l, a[1], kr)
+    if kl is not None and kr is None and r:
+        return (r, _FLIP[a[1]], kl)
+    return None
+
+
+def _int_feasible(asg):
+    """is there, for every value compared with integer constants, an integer satisfying all the comparisons as assigned?"""
+    by = {}
+    for a, v in asg.items():
+        ia = int_atom(a)
+        if ia is not None:
+            by.setdefault(ia[0], []).append((ia[1], ia[2], v))
+    for cons in by.values():
+        if len(cons) < 2:
+            continue
+        cands = set()
+        for op, k, v in cons:
+            cands |= {k - 1, k, k + 1}
+        if not any(all(_OPS[op](x, k) == v for op, k, v in cons) for x in cands):
+            return False
+    return True
+
+
 def implied(facts, query, max_atoms=14):
     """True / False when `facts` entail the value of `query`, else None."""
     if query[0] == "lit":
@@ -118,7 +161,9 @@ def implied(facts, query, max_atoms=14):
             if i in used:
                 continue
             fa = atoms_of(f)
-            if fa & cone:
+            ivars = {int_atom(a)[0] for a in cone if int_atom(a) is not None}
+            linked = any(int_atom(a) is not None and int_atom(a)[0] in ivars for a in fa)
+            if fa & cone or linked:
                 used.add(i)
                 rel.append((f, pol))
                 if not fa <= cone:
@@ -134,7 +179,7 @@ def implied(facts, query, max_atoms=14):
     vals = set()
     for bits in product((False, True), repeat=len(atoms)):
         asg = dict(zip(atoms, bits))
-        if all(evaluate(f, asg) == pol for f, pol in rel):
+        if all(evaluate(f, asg) == pol for f, pol in rel) and _int_feasible(asg):
             vals.add(evaluate(query, asg))
             if len(vals) == 2:
                 return None
